@@ -8,6 +8,7 @@ from . import _rows
 
 PROP = "C08"
 LEVEL = "exploration"
+ANCHORS = ["rail_rep"]  # functions whose reached lines are reported in the evidence
 RULE = (
     "cases = random SystemSpecs with unique rail names on a random subset of non-load components (sources and "
     "the mux included), parents addressed by rail name, phases, several sources, a mux between rails, and "
